@@ -2,6 +2,7 @@
   C16 — readers see a consistent file during and after an interrupted update.
 -/
 import MocVerif.Model.MocSetCrash
+import MocVerif.Props.C14
 
 namespace Moc.C16
 
@@ -166,5 +167,34 @@ example : WF { fileLen := 2064, index := [2064], listed := 1 } := by
   refine ⟨rfl, fun i hi => ?_⟩
   have : i = 0 := by simp at hi; omega
   subst this; decide
+
+/-! ### The interrupted `append` at the level of the file's words and bytes -/
+section File
+open Moc.MsFile Moc.C14
+
+/-- **A writer killed after `k` of the three stores of `append`** (data bytes, index word, metadata
+    word — the repaired program order) leaves a file in which a reader decodes EXACTLY the moc-set
+    before the command (`k ≤ 2`: the bytes and the index word beyond the last listed entry are never
+    looked at) or EXACTLY the moc-set after it (`k ≥ 3`) — for every reachable file, every MOC and
+    every kill point; in particular every listed MOC is read back intact. -/
+theorem append_interrupted_file_view (f : File) (e : MsEntry) (k : Nat) (hf : FileWF f) (he : EntryOk e) :
+    abs (fileAppendPrefix f e k) = if k ≥ 3 then (msAppend (abs f) e).1 else abs f := by
+  obtain ⟨l, tail, hok, _, hb⟩ := hf
+  have := appendPrefix_abs f.n128 l tail e k hok he
+  rw [← hb] at this
+  rw [this, abs_of_wf hok hb]
+
+/-- The interrupted update can be run again (or any other command can follow): the file a kill
+    leaves before the metadata store is read as the old moc-set, and its leftover bytes are
+    overwritten by the next append (`file_append_refines` holds for any leftover `tail`). -/
+theorem append_interrupted_then_retry (n : Nat) (l : List MsEntry) (tail : List Nat) (e : MsEntry)
+    (hok : ∀ x ∈ l, EntryOk x) (hnd : NoDupLive { n128 := n, entries := l }) (he : EntryOk e) (hl : e.status > 1) :
+    abs (fileAppend (build n (l.map itemOf) (entryBytes e ++ tail)) e).1
+      = (msAppend { n128 := n, entries := l } e).1 := by
+  have hwf : FileWF (build n (l.map itemOf) (entryBytes e ++ tail)) := ⟨l, _, hok, hnd, rfl⟩
+  have := (file_append_refines _ e hwf he hl).1
+  rw [this, abs_canon n l _ hok]
+
+end File
 
 end Moc.C16
